@@ -456,7 +456,18 @@ func (s *Sched) describeBlocked() string {
 
 // block publishes p as the pending operation of the running goroutine, yields to the scheduler and
 // executes the operation once chosen.
+// OnPoint, when set by a harness, is told of every scheduling point (channel operation, select,
+// lock, yield) a managed goroutine is about to reach, before the operation is published. The hook
+// may itself block (Quiesce): the goroutine is then held in front of the operation. Not re-entered.
+var OnPoint func(kind string)
+var inOnPoint bool
+
 func (s *Sched) block(p *pending) {
+	if OnPoint != nil && !inOnPoint && p.kind != opQuiesce {
+		inOnPoint = true
+		OnPoint(describeKind(p))
+		inOnPoint = false
+	}
 	g := s.cur
 	g.pend = p
 	p.fired = -2
@@ -532,6 +543,23 @@ func chanKey(ch any) uintptr {
 }
 
 func (s *Sched) track(ch any) { s.keep = append(s.keep, ch) }
+
+func describeKind(p *pending) string {
+	switch p.kind {
+	case opChan:
+		if len(p.ops) > 1 || p.hasDefault {
+			return "select " + p.pos
+		}
+		return "channel operation " + p.pos
+	case opYield:
+		return "yield " + p.pos
+	case opLock, opRLock:
+		return "lock " + p.pos
+	case opWait:
+		return "wait " + p.pos
+	}
+	return "point"
+}
 
 // Yield is a plain scheduling point.
 func Yield(pos string) {
